@@ -131,7 +131,8 @@ Inductive ccase : Type :=
 | CaseGen (chunks : list cval) (o : obs)
 | CaseMsg (api : N) (chunks : list (option msg)) (o : mobs)
 | CaseMsgList (chunks : list (list (option msg))) (o : lobs)
-| CaseMsgMap (chunks : list (list (string * mval))) (o : kobs).
+| CaseMsgMap (chunks : list (list (string * mval))) (o : kobs)
+| CaseAny (chunks : list cval) (o : obs).   (* a stream of [any]: chunks of any dynamic type, nil included *)
 
 (* the same entry points with Go's map iteration made explicit (Model/ConcatOrder.v) and
    set to an order that differs from the one Model/Concat.v and Model/ConcatMsg.v use:
@@ -151,5 +152,6 @@ Definition bad (c : ccase) : bool :=
       negb (mobs_eqb (mobs_of (run_msg api chunks)) o) || negb (mobs_eqb (mobs_of (run_msg_o api chunks)) o)
   | CaseMsgList chunks o => negb (lobs_eqb (lobs_of (msglist_stream chunks)) o)
   | CaseMsgMap chunks o => negb (kobs_eqb (kobs_of (mmap_stream chunks)) o)
+  | CaseAny chunks o => negb (obs_eqb (obs_of (concat_stream_any chunks)) o)
   end.
 Definition mismatches (cs : list ccase) : list nat := mismatches_from bad 0 cs.
